@@ -1,5 +1,6 @@
 import XcmModel.Props.C17
 import XcmModel.Lemmas.Api
+import XcmModel.Lemmas.Btls
 /-!
 # C03 — a failed send leaves no trace; a successful send is delivered exactly once
 (framing layer: tcp, tls.  The blocking wrapper of `xcm.c` is not modelled here; see MANIFEST.)
@@ -152,3 +153,53 @@ theorem C03_blocking_send_accepted_once (len : Nat) (script : List Api.Ans) (n :
   simpa [Api.accSends] using hb.1 n (hf.2.2.1 n h)
 
 end XcmModel.C03
+
+/-! ## the TLS byte stream below the tls messaging transport: "finished" means handed to OpenSSL -/
+namespace XcmModel.C03btls
+open XcmModel XcmModel.Btls
+
+/-- `btls_finish` reports success only when no output is retained any more: a message whose last bytes the TLS layer
+took over (SSL_write could not complete) is not reported as sent - by xcm_finish, and hence by a blocking xcm_send -
+before those bytes have been handed to OpenSSL.  (EAGAIN from the flush is passed on, never swallowed.) -/
+theorem C03_btls_finish_success_means_flushed (s : St) (h : HAns) (ws : List WAns) (l : Option Nat) (k : Nat) (p : Bytes)
+    (hr : (finish s h ws l).2.1 = .n k p) : (finish s h ws l).1.pend = [] ∧ l = none := by
+  revert hr
+  unfold finish
+  generalize tryFinishHandshake s h = s1
+  simp only
+  split
+  · intro hr; cases hr
+  · have fc := flush_core (s1.pend.length + 1) s1 ws
+    cases hf : flushPending (s1.pend.length + 1) s1 ws with
+    | mk sf rest3 =>
+      obtain ⟨fr, rest, nf⟩ := rest3
+      rw [hf] at fc
+      simp only at fc ⊢
+      cases fr with
+      | some r =>
+        intro hr
+        have he := flush_res_err (s1.pend.length + 1) s1 ws r (by rw [hf])
+        obtain ⟨e0, he0⟩ := he
+        subst he0
+        cases hr
+      | none =>
+        intro hr
+        refine ⟨(fc.2 rfl (Nat.lt_succ_self _)).1, ?_⟩
+        cases l with
+        | none => rfl
+        | some e => cases hr
+  · intro hr; cases hr
+  · intro hr; cases hr
+
+/-- ... and while output is retained and the flush cannot complete, finish says EAGAIN (or the terminal errno), not 0 -/
+theorem C03_btls_retained_means_not_finished (s : St) (e : SslEv) (hs : s.state = .ready) (hp : s.pend ≠ [])
+    (he : e = .wantRead ∨ e = .wantWrite) (l : Option Nat) :
+    (finish s (.done .ok) [.ev e] l).2.1 = .err EAGAIN := by
+  have ht : tryFinishHandshake s (.done .ok) = s := by unfold tryFinishHandshake; simp [hs]
+  have hne : s.pend.isEmpty = false := by cases hq : s.pend with | nil => exact absurd hq hp | cons a t => rfl
+  unfold finish
+  rw [ht]
+  rcases he with he | he <;> subst he <;> simp [hs, flushPending, hne, nextW, processSslEvent]
+
+end XcmModel.C03btls
+
